@@ -19,9 +19,10 @@ ANCHOR_FILES = ['spatialpandas/geometry/_algorithms/bounds.py',
 TRUSTED = ['numpy slicing / boolean assignment as transcribed in Model/Arrow.v, Model/Bounds.v',
            'pyarrow buffers() export (harness/common.py export_listarr/export_fixarr)']
 
-IMPORTS = 'Model.Num Model.Arrow Model.Bounds'
+IMPORTS = 'Model.Num Model.Arrow Model.Bounds Spec.BoundsSpec'
 RES_TY = 'option (list bbox * bbox * (num * num) * (num * num))'
-LA_FN = 'fun a => if wf_listarr a then Some (la_all a) else None'
+# the guards the theorems assume are evaluated on every real array
+LA_FN = 'fun a => if wf_listarr a && nulls_empty a && even_outer a then Some (la_all a) else None'
 FA_FN = 'fun a => if wf_fixarr a then Some (fa_all a) else None'
 
 
